@@ -816,7 +816,6 @@ class TranscriptInterval(AbstractFeatureInterval):
             blocks = [[x.start, x.end] for x in self.relative_blocks]
             num_blocks = self.chunk_relative_location.num_blocks
         block_sizes = [end - start for start, end in blocks]
-        block_starts = [start - self.start for start, _ in blocks]
 
         if chromosome_relative_coordinates:
             start = self.start
@@ -834,6 +833,9 @@ class TranscriptInterval(AbstractFeatureInterval):
                 cds_end = self.chunk_relative_cds_end
             else:
                 cds_start = cds_end = 0
+
+        # blockStarts are relative to the exported start, in whichever coordinate system was chosen
+        block_starts = [block_start - start for block_start, _ in blocks]
 
         return BED12(
             self.sequence_name,
